@@ -3729,8 +3729,9 @@ class locked_index:
                     if ext.to_bytes() or isinstance(ext, SparseDirExtension)
                 ],
             )
+            # (the checksum is written by close(): a failure there must give
+            # the lock back as well)
+            f.close()
         except BaseException:
             self._file.abort()
             raise
-        else:
-            f.close()
